@@ -250,6 +250,13 @@ func init() {
 			e := s.logEntry(args[0])
 			return []Value{e.Arr.Select(Add(e.Off, asTerm(args[1])))}
 		},
+		"logBytesAre": func(s *State, fn *ssa.Function, args []Value, where string) []Value {
+			// logBytesAre(i, str): the byte argument of entry i is exactly the bytes of str
+			e := s.logEntry(args[0])
+			want := args[1].(*StringV)
+			got := &StringV{Arr: &ArrCopy{Base: &ArrZero{W: 8}, DstOff: Const(64, 0), Src: e.Arr, SrcOff: e.Off, N: e.N}, Len: e.N}
+			return []Value{s.stringEq(got, want)}
+		},
 		"logErr": func(s *State, fn *ssa.Function, args []Value, where string) []Value {
 			return []Value{s.logEntry(args[0]).Err}
 		},
